@@ -481,6 +481,19 @@ def gen_history(c, rng, length):
     ops = []
     cur = c.res
     n = c.n
+    if rng.random() < 0.5 and length >= 3:
+        # "echo" history: queries, an update, the same queries again (anything a query stored
+        # before the update is asked for after it), possibly twice
+        qs = [op for op in gen_history(c, rng, max(1, (length - 1) // 2))
+              if op[0] not in ("U", "UA", "UR")] or [("D",)]
+        ops = list(qs)
+        for _ in range(rng.choice([1, 1, 2])):
+            up = [op for op in gen_history(c, rng, 12) if op[0] == "U"][:1] or \
+                [("U", draw_res(n, c.A, rng, "dyadic"), "float64")]
+            if up[0][2] in ("held-inplace", "caller-inplace") and rng.random() < 0.5:
+                up = [("U", draw_res(n, c.A, rng, "dyadic"), up[0][2])]
+            ops += up + qs
+        return ops
     for _ in range(length):
         k = rng.random()
         if k < 0.27:
@@ -884,7 +897,104 @@ def run(ctx):
     # D. complex impedances (implementation-only oracle)
     # ------------------------------------------------------------------
     complex_stream(ctx, RN, rng, 40 if quick else 400)
+    wrapper_stream(ctx, RN, rng)
+    disconnected_stream(ctx, rng, 40 if quick else 400)
     stress_stream(ctx, RN, rng, 12 if quick else 120)
+
+
+def wrapper_stream(ctx, RN, rng):
+    """the public factories: SmallTestNetwork() against model and oracle like any other network,
+    SmallComplexNetwork() through the complex oracle"""
+    net = quiet(RN.SmallTestNetwork)
+    A = [[int(v) for v in r] for r in np.asarray(net.adjacency).tolist()]
+    res = [[Fr(int(v)) for v in r] for r in np.asarray(net.resistances).tolist()]
+    n = len(A)
+    c = Case(n, A, res, "int", "SmallTestNetwork()")
+    ctx.count("wrapper:SmallTestNetwork")
+    ctx.case(("wrapper", "SmallTestNetwork"), True, {"factory": "ResNetwork.SmallTestNetwork()"})
+    m = parse_net(common.driver(ctx.pid, [f"net {n} {enc_adj(A)} {enc_mat(res)}"])[0])
+    o = observe(net, n)
+    d = diff_obs(o, m, n) if m else [("model refuses", None, None, None)]
+    ctx.obligation("correspondence: Lean Circuit model == ResNetwork.SmallTestNetwork() "
+                   "(13 observables)", "correspondence", not d, str(d[:3]))
+    if d:
+        # settled on the real code: the factory against a network constructed from its own data
+        twin = c.build(RN)
+        o2 = observe(twin, n)
+        if any(abs(o[k] - o2[k]) > TOL * max(1.0, abs(o2[k])) for k in ("avg", "diam", "gc")):
+            ctx.fail({"kind": "wrapper", "factory": "SmallTestNetwork"},
+                     "SmallTestNetwork() differs from ResNetwork(resistances, adjacency) built "
+                     "from its own data", c.replay())
+    oracle_case(ctx, c, o, RN, rng)
+    # histories start from the factory object too
+    ops = gen_history(c, rng, 8)
+    live = Live(c, RN)
+    live.net = quiet(RN.SmallTestNetwork)
+    live.arr = live.net.resistances
+    live.cur = np.array(live.arr).copy()
+    for op in ops:
+        try:
+            x = live.apply(op)
+        except Exception as ex:  # noqa
+            ctx.fail({"kind": "exception", "where": "history", "error": type(ex).__name__},
+                     f"history on SmallTestNetwork() raised {type(ex).__name__}: {ex}",
+                     c.replay(history=[show_op(o_) for o_ in ops]))
+            break
+        if op[0] in ("U", "UA", "UR"):
+            continue
+        kb = f32_bound(quiet(live.net.get_admittance).tolist(), quiet(live.net.get_R).tolist())
+        fv = apply_op(live.twin(), op)
+        if not op_close(op, x, fv, n, live.mag, live.lowprec, kb):
+            ctx.fail({"kind": "history", "query": show_op(op)[0], "after": "SmallTestNetwork()"},
+                     f"{show_op(op)[0]} in a history on SmallTestNetwork() returns {x}, a fresh "
+                     f"ResNetwork with the current resistances returns {fv}",
+                     c.replay(history=[show_op(o_) for o_ in ops], observed=x, expected=fv))
+            break
+    netc = quiet(RN.SmallComplexNetwork)
+    Z = np.array(netc.resistances, dtype=complex)
+    Ac = [[int(v) for v in r] for r in np.asarray(netc.adjacency).tolist()]
+    ctx.count("wrapper:SmallComplexNetwork")
+    if not netc.flagComplex or Z.shape != (5, 5):
+        ctx.fail({"kind": "wrapper", "factory": "SmallComplexNetwork"},
+                 "SmallComplexNetwork() is not a complex 5-node network", {})
+    complex_check(ctx, RN, rng, Ac, Z, "SmallComplexNetwork()",
+                  make=lambda: quiet(RN.SmallComplexNetwork))
+
+
+def disconnected_stream(ctx, rng, count):
+    """the model's connectivity test (hypothesis of the theorems, `bfs_connected_sound`) against
+    the harness's own search, on disconnected and connected graphs incl. isolated nodes"""
+    reqs, want = [], []
+    for _ in range(count):
+        n = rng.randrange(2, 8)
+        k = rng.randrange(1, n)                       # split point: two node groups
+        perm = list(range(n))
+        rng.shuffle(perm)
+        e = []
+        for grp in (perm[:k], perm[k:]):
+            for a in range(1, len(grp)):
+                if rng.random() < 0.9:
+                    e.append((grp[a], grp[rng.randrange(a)]))
+            for a, b in itertools.combinations(grp, 2):
+                if rng.random() < 0.2:
+                    e.append((a, b))
+        if rng.random() < 0.3:
+            e.append((perm[0], perm[-1]))             # a bridge: possibly connected again
+        A = graph_from_edges(n, e)
+        res = draw_res(n, A, rng, "int")
+        reqs.append(f"net {n} {enc_adj(A)} {enc_mat(res)}")
+        want.append(is_connected(n, A))
+        ctx.count("connectivity:" + ("connected" if want[-1] else "disconnected"))
+        ctx.case(("conn", enc_adj(A)), True)
+    ans = common.driver(ctx.pid, reqs)
+    bad = []
+    for r, a, w in zip(reqs, ans, want):
+        got = ("conn=1" in a) and not a.startswith("undefined")
+        if got != w or (not w and "conn=0" not in a):
+            bad.append((r, a[:60], w))
+    ctx.obligation(f"correspondence: the model accepts exactly the connected networks "
+                   f"({len(reqs)} graphs, {sum(not w for w in want)} disconnected)",
+                   "correspondence", not bad, "\n".join(map(str, bad[:4])))
 
 
 def kernel_case(K, n, Is, It, a32, r32, kreqs, kimpl, kmeta, tag):
@@ -1023,7 +1133,7 @@ def oracle_case(ctx, c, o, RN, rng):
                 net2 = c2.build(RN)
             else:
                 net2 = c.build(RN)
-                quiet(net2.average_effective_resistance)
+                observe(net2, n)          # every query once: whatever is stored is now filled
                 quiet(net2.update_resistances, c.array(res2) if c.dtype == "float32"
                       else np.array([[float(v) for v in r] for r in res2]))
             o2 = observe(net2, n)
@@ -1171,14 +1281,30 @@ def complex_stream(ctx, RN, rng, count):
             for j in range(i):
                 if A[i][j]:
                     Z[i, j] = Z[j, i] = complex(rng.randrange(1, 17) / 2, rng.randrange(-16, 17) / 2)
+        if rng.random() < 0.25:        # extreme but exact common scale
+            Z = Z * 2.0 ** rng.choice([-40, -20, 20, 40])
+        zdt = rng.choice([complex, complex, np.complex64])
+        complex_check(ctx, RN, rng, A, Z.astype(zdt), kind)
+
+
+def complex_check(ctx, RN, rng, A, Z, kind, make=None):
+    """one complex-impedance network (built by `make()` if given, e.g. a public factory)"""
+    for _once in (0,):
+        n = len(A)
+        low = Z.dtype == np.complex64
+        lf = 300.0 if low else 1.0        # complex64 arrays: single-precision admittances
         ctx.count("complex:" + kind)
-        ctx.case(("complex", enc_adj(A), Z.tolist().__repr__()), n >= 3)
-        rep = {"n": n, "adjacency": A, "impedances": [[str(z) for z in r] for r in Z.tolist()]}
+        ctx.count("complex-dtype:" + str(Z.dtype))
+        ctx.case(("complex", enc_adj(A), Z.tolist().__repr__(), str(Z.dtype)), n >= 3)
+        rep = {"n": n, "adjacency": A, "impedances": [[str(z) for z in r] for r in Z.tolist()],
+               "dtype": str(Z.dtype)}
 
         def fail(law, what, **extra):
             ctx.fail({"kind": "complex", "law": law}, what, dict(rep, **extra))
+        Z0 = Z
+        Z = Z.astype(complex)
         try:
-            net = quiet(RN, Z.copy(), adjacency=np.array(A, dtype=np.int8))
+            net = make() if make else quiet(RN, Z0.copy(), adjacency=np.array(A, dtype=np.int8))
             er = np.array([[quiet(net.effective_resistance, a, b) for b in range(n)]
                            for a in range(n)])
             ad = quiet(net.admittive_degree)
@@ -1191,32 +1317,33 @@ def complex_stream(ctx, RN, rng, count):
         G = np.zeros((n, n), dtype=complex)
         G[1:, 1:] = np.linalg.inv(L[1:, 1:])
         ex = np.array([[G[a, a] + G[b, b] - G[a, b] - G[b, a] for b in range(n)] for a in range(n)])
-        sc = max(1.0, np.abs(ex).max())
-        if np.abs(er - ex).max() > 1e-6 * sc:
+        sc = np.abs(ex).max()
+        ys = np.abs(Y).max()
+        if np.abs(er - ex).max() > 1e-6 * lf * sc:
             a, b = np.unravel_index(np.abs(er - ex).argmax(), er.shape)
             fail("effective_impedance=direct-solve",
                  f"effective_resistance({a},{b}) = {er[a, b]}, direct solve gives {ex[a, b]}")
             continue
-        if np.abs(er - er.T).max() > 1e-7 * sc or np.abs(np.diag(er)).max() != 0:
+        if np.abs(er - er.T).max() > 1e-7 * lf * sc or np.abs(np.diag(er)).max() != 0:
             fail("symmetric/zero", "complex effective resistance not symmetric / not 0 on diagonal")
         fo = sum(er[i, j] * Y[i, j] for i in range(n) for j in range(i) if A[i][j])
-        if abs(fo - (n - 1)) > 1e-6 * n:
+        if abs(fo - (n - 1)) > 1e-6 * lf * n:
             fail("foster", f"sum ER*admittance over links = {fo}, expected {n - 1}")
         if kind == "path":
             tot = sum(Z[i, i + 1] for i in range(n - 1))
-            if abs(er[0, n - 1] - tot) > 1e-7 * sc:
+            if abs(er[0, n - 1] - tot) > 1e-7 * lf * sc:
                 fail("series", f"ER(0,{n - 1}) = {er[0, n - 1]}, series law {tot}")
         if kind == "bundle+direct":
             g = 1 / Z[0, 1] + sum(1 / (Z[0, k] + Z[k, 1]) for k in range(2, n))
-            if abs(er[0, 1] - 1 / g) > 1e-7 * sc:
+            if abs(er[0, 1] - 1 / g) > 1e-7 * lf * sc:
                 fail("parallel", f"ER(0,1) = {er[0, 1]}, parallel law {1 / g}")
-        if np.abs(ad - Y.sum(axis=0)).max() > 1e-9 * max(1.0, np.abs(Y).max()):
+        if np.abs(ad - Y.sum(axis=0)).max() > 1e-9 * lf * ys:
             fail("admittive_degree=sum", "complex admittive degree differs from its defining sum")
         deg = np.array(A).sum(axis=1)
         for i in range(n):
             tri = sum(Y[i, j] * Y[i, k] * Y[j, k] for j in range(n) for k in range(n))
             e = 0 if deg[i] == 1 else tri / (Y[i].sum() * (deg[i] - 1))
-            if abs(lc[i] - e) > 1e-9 * max(1.0, abs(e)):
+            if abs(lc[i] - e) > 1e-9 * lf * max(abs(e), ys * ys / n):
                 fail("local_admittive_clustering=sum",
                      f"complex local_admittive_clustering()[{i}] = {lc[i]}, defining sum {e}")
         # scaling by a complex factor through update_resistances, after the store was filled
@@ -1225,11 +1352,11 @@ def complex_stream(ctx, RN, rng, count):
         quiet(net.update_resistances, Z * f)
         er2 = np.array([[quiet(net.effective_resistance, a, b) for b in range(n)]
                         for a in range(n)])
-        if np.abs(er2 - f * er).max() > 1e-6 * sc * abs(f):
+        if np.abs(er2 - f * er).max() > 1e-6 * lf * sc * abs(f):
             fail("scaling", f"multiplying all impedances by {f} does not scale the effective "
                  "impedance")
         avg = quiet(net.average_effective_resistance)
         twin = quiet(RN, Z * f, adjacency=np.array(A, dtype=np.int8))
-        if abs(avg - quiet(twin.average_effective_resistance)) > 1e-6 * sc * abs(f):
+        if abs(avg - quiet(twin.average_effective_resistance)) > 1e-6 * lf * sc * abs(f):
             fail("history", "average_effective_resistance after update_resistances differs "
                  "from a fresh object")
